@@ -11,6 +11,7 @@ INDEX_MUT = "core::slice::index::<impl core::ops::IndexMut<I> for [T]>::index_mu
 ERR = "rtcm_error::RtcmError"
 
 
+import libmodel
 from framing_slices import strip_ref, as_slice
 
 
@@ -627,71 +628,149 @@ def rules_scan(prog, res, m=None):
     names = fa.names
     data = mk("mem", fa.start_val(1, 0))
     loc = lambda line=None: {"file": f.loc["file"], "line": line or f.loc["line"]}
-    # iterator: data.iter().enumerate() consumed by exactly one `next` call in one loop
-    nexts = [(b, t) for b, t in f.calls() if (callee_of(t) or "").endswith("::next")]
     news = [(b, t) for b, t in f.calls() if callee_of(t) == NEW]
-    res.ob("S-first", "scan | one loop driven by one Iterator::next", len(nexts) == 1 and len(f.loops()) == 1,
-           "next calls=%d loops=%d" % (len(nexts), len(f.loops())), loc())
+    nexts = [(b, t) for b, t in f.calls() if (callee_of(t) or "").endswith("::next")]
+    poss = [(b, t) for b, t in f.calls() if libmodel.POSITION.fullmatch(callee_of(t) or "")]
     res.ob("S-cand", "scan | exactly one call of MessageFrame::new", len(news) == 1, "found %d" % len(news), loc())
-    if len(nexts) != 1 or len(news) != 1:
+    if len(news) != 1:
         return None
-    nb, nt = nexts[0]
-    it = fa.call_args(nb)[0]
-    okit = False
-    itdesc = ""
-    if it.op == "ref" and it.args[0].op == "loc":
-        X = it.args[0].args[1]
-        ds = [d for d in fa.defs(X) if d[2] != "borrow"]
-        if len(ds) == 1:
-            v = fa.defterm(X, ds[0][0], ds[0][1], ds[0][2])
-            itdesc = show(v, names)
-            # into_iter(enumerate(iter(&*data)))  -- front to back, no rev/skip/step
-            chain = []
-            x = v
-            while x.op == "call":
-                chain.append(x.args[0])
-                x = x.args[1][0] if x.args[1] else None
-                if x is None:
-                    break
-            if x is not None and strip_ref(x) is strip_ref(data) and chain == [
-                    "<I as core::iter::IntoIterator>::into_iter", "core::iter::Iterator::enumerate", "core::slice::<impl [T]>::iter"]:
-                okit = True
-    res.ob("S-first", "scan | the loop iterates data.iter().enumerate() front to back", okit and callee_of(nt) == "<core::iter::Enumerate<I> as core::iter::Iterator>::next",
-           "iterator: %s ; next = %s" % (itdesc, callee_of(nt)), loc(nt["line"]), sample=itdesc)
-    item = fa.defterm(nt["dest"]["local"], nb, len(f.blocks[nb]["stmts"]), "call")
-    some = mk("downcast", item, 1)
-    pair = mk("field", some, 0)
-    i_t = None
-    b_t = None
-    # (i, b) = payload
     cb, ct = news[0]
     arg = fa.call_args(cb)[0]
     sl = as_slice(arg)
+    i_t = sl[1] if (sl is not None and sl[0] is strip_ref(data) and sl[3] == "RangeFrom") else None
     gs = [(fact_of_guard(g), g) for g in fa.guards(cb) if g[4] == "switch"]
-    oksl = False
-    if sl is not None and sl[0] is strip_ref(data) and sl[3] == "RangeFrom":
-        i_t = sl[1]
-        oksl = i_t.op == "field" and i_t.args[1] == 0 and i_t.args[0] is pair
-    res.ob("S-cand", "scan | candidate = data[i..] with i the index yielded with the byte", oksl,
-           "argument: %s" % show(arg, names), loc(ct["line"]), sample=show(arg, names))
-    okpre = False
-    for fc, g in gs:
-        if fc[0] == "Eq":
-            a, b = fc[1], fc[2]
-            if is_const(b) and const_val(b) == 0xD3:
-                x = a
-            elif is_const(a) and const_val(a) == 0xD3:
-                x = b
-            else:
-                continue
-            # *b where b = pair.1
-            x = strip_ref(x) if x.op == "memval" else x
-            if x.op == "mem":
-                x = x.args[0]
-            if x.op == "field" and x.args[1] == 1 and x.args[0] is pair:
-                okpre = True
-    res.ob("S-cand", "scan | new() is tried exactly at positions holding 0xD3", okpre,
-           "guards: " + "; ".join(_fact_str(fc, names) for fc, g in gs), loc(ct["line"]))
+    end_discr = None       # term whose discriminant == 0 (None) means: no further candidate
+    if len(poss) == 1 and not nexts:
+        # ---- idiom B: while let Some(off) = data[start..].iter().position(|&b| b == 0xD3) { i = start + off; .. start = i + 1 }
+        res.ob("S-first", "scan | one loop driven by one position() search", len(f.loops()) == 1, "loops=%d" % len(f.loops()), loc())
+        if len(f.loops()) != 1:
+            return None
+        header = list(f.loops().keys())[0]
+        body = f.loops()[header]
+        pb, pt = poss[0]
+        pargs = fa.call_args(pb)
+        item = fa.defterm(pt["dest"]["local"], pb, len(f.blocks[pb]["stmts"]), "call")
+        end_discr = item
+        off = mk("field", mk("downcast", item, 1), 0)
+        # searched slice: data[start..]
+        okit = False
+        start = None
+        itdesc = ""
+        it = pargs[0]
+        if it.op == "ref" and it.args[0].op == "loc":
+            X = it.args[0].args[1]
+            ds = [d for d in fa.defs(X) if d[2] != "borrow"]
+            if len(ds) == 1:
+                v = fa.defterm(X, ds[0][0], ds[0][1], ds[0][2])
+                itdesc = show(v, names)
+                if v.op == "call" and v.args[0] == "core::slice::<impl [T]>::iter" and v.args[1]:
+                    ssl = as_slice(v.args[1][0])
+                    if ssl is not None and ssl[0] is strip_ref(data) and ssl[3] == "RangeFrom":
+                        start = ssl[1]
+                        okit = start.op == "phi" and start.args[2] == header
+        res.ob("S-first", "scan | the search runs over data[start..] front to back, start being the loop's resume offset", okit,
+               "iterator: %s" % itdesc, loc(pt["line"]), sample=itdesc)
+        # predicate: |&b| b == 0xD3
+        okpred = False
+        pd = ""
+        clo = pargs[1] if len(pargs) > 1 else None
+        if clo is not None and clo.op == "closure" and prog.fn(clo.args[0]) is not None:
+            cf = prog.fn(clo.args[0])
+            res.fn(cf)
+            cfa = FA(cf, prog)
+            rets = cf.return_blocks()
+            if len(rets) == 1 and not cf.loops():
+                rvv = cfa.end_val(0, rets[0])
+                pd = show(rvv, cfa.names)
+                if rvv.op == "bin" and rvv.args[0] == "Eq":
+                    a_, b_ = rvv.args[1], rvv.args[2]
+                    cst, oth = (b_, a_) if is_const(b_) else (a_, b_)
+                    if is_const(cst) and const_val(cst) == 0xD3:
+                        x = oth
+                        while x.op in ("memval", "mem", "ref"):
+                            x = x.args[0]
+                        okpred = x.op == "arg" and x.args[1] == 2
+        res.ob("S-cand", "scan | new() is tried exactly at positions holding 0xD3", okpred, "position predicate: %s" % pd, loc(pt["line"]))
+        # candidate = start + off
+        okc = False
+        if i_t is not None and start is not None:
+            la, ca = lin(i_t)
+            okc = dict(la) == {start: 1, off: 1} and ca == 0
+        res.ob("S-cand", "scan | candidate = data[i..] with i = resume offset + position found", okc,
+               "argument: %s" % show(arg, names), loc(ct["line"]), sample=show(arg, names))
+        # resume offset: 0 initially, candidate + 1 after a rejected candidate
+        okres = False
+        rd_ = ""
+        if start is not None and start.op == "phi":
+            ops = fa.phi_operands(start)
+            inits = [v for pb_, v in ops if pb_ not in body]
+            backs = [v for pb_, v in ops if pb_ in body]
+            okb = bool(backs)
+            for v in backs:
+                la, ca = lin(v)
+                if not (i_t is not None and dict(la) == dict(lin(i_t)[0]) and ca == 1):
+                    okb = False
+            okres = okb and inits and all(is_const(v) and const_val(v) == 0 for v in inits)
+            rd_ = "initial %s ; after a rejected candidate %s" % ([show(v, names) for v in inits], [show(v, names) for v in backs])
+        res.ob("S-first", "scan | the search resumes at 0 initially and at candidate + 1 after a rejected candidate (no byte is skipped unexamined)", bool(okres), rd_, loc())
+        if not (okit and okc):
+            i_t = None
+    else:
+        # ---- idiom A: for (i, b) in data.iter().enumerate() { if *b == 0xD3 { .. } }
+        res.ob("S-first", "scan | one loop driven by one Iterator::next", len(nexts) == 1 and len(f.loops()) == 1,
+               "next calls=%d loops=%d" % (len(nexts), len(f.loops())), loc())
+        if len(nexts) != 1:
+            return None
+        nb, nt = nexts[0]
+        it = fa.call_args(nb)[0]
+        okit = False
+        itdesc = ""
+        if it.op == "ref" and it.args[0].op == "loc":
+            X = it.args[0].args[1]
+            ds = [d for d in fa.defs(X) if d[2] != "borrow"]
+            if len(ds) == 1:
+                v = fa.defterm(X, ds[0][0], ds[0][1], ds[0][2])
+                itdesc = show(v, names)
+                # into_iter(enumerate(iter(&*data)))  -- front to back, no rev/skip/step
+                chain = []
+                x = v
+                while x.op == "call":
+                    chain.append(x.args[0])
+                    x = x.args[1][0] if x.args[1] else None
+                    if x is None:
+                        break
+                if x is not None and strip_ref(x) is strip_ref(data) and chain == [
+                        "<I as core::iter::IntoIterator>::into_iter", "core::iter::Iterator::enumerate", "core::slice::<impl [T]>::iter"]:
+                    okit = True
+        res.ob("S-first", "scan | the loop iterates data.iter().enumerate() front to back", okit and callee_of(nt) == "<core::iter::Enumerate<I> as core::iter::Iterator>::next",
+               "iterator: %s ; next = %s" % (itdesc, callee_of(nt)), loc(nt["line"]), sample=itdesc)
+        item = fa.defterm(nt["dest"]["local"], nb, len(f.blocks[nb]["stmts"]), "call")
+        end_discr = item
+        some = mk("downcast", item, 1)
+        pair = mk("field", some, 0)
+        oksl = i_t is not None and i_t.op == "field" and i_t.args[1] == 0 and i_t.args[0] is pair
+        res.ob("S-cand", "scan | candidate = data[i..] with i the index yielded with the byte", oksl,
+               "argument: %s" % show(arg, names), loc(ct["line"]), sample=show(arg, names))
+        if not oksl:
+            i_t = None
+        okpre = False
+        for fc, g in gs:
+            if fc[0] == "Eq":
+                a, b = fc[1], fc[2]
+                if is_const(b) and const_val(b) == 0xD3:
+                    x = a
+                elif is_const(a) and const_val(a) == 0xD3:
+                    x = b
+                else:
+                    continue
+                # *b where b = pair.1
+                x = strip_ref(x) if x.op == "memval" else x
+                if x.op == "mem":
+                    x = x.args[0]
+                if x.op == "field" and x.args[1] == 1 and x.args[0] is pair:
+                    okpre = True
+        res.ob("S-cand", "scan | new() is tried exactly at positions holding 0xD3", okpre,
+               "guards: " + "; ".join(_fact_str(fc, names) for fc, g in gs), loc(ct["line"]))
     # classify returns
     result = fa.defterm(ct["dest"]["local"], cb, len(f.blocks[cb]["stmts"]), "call")
     rd = mk("discr", result)
@@ -706,7 +785,7 @@ def rules_scan(prog, res, m=None):
             g = fa.guards(b)
             dres = [(gk, gv) for (gt, gk, gv, _, _s) in g if gt is rd]
             derr = [(gk, gv) for (gt, gk, gv, _, _s) in g if gt is errd]
-            dnext = [(gk, gv) for (gt, gk, gv, _, _s) in g if gt is mk("discr", item)]
+            dnext = [(gk, gv) for (gt, gk, gv, _, _s) in g if gt is mk("discr", end_discr)]
             if v.op != "tuple" or len(v.args[0]) != 2:
                 res.ob("S-shape", "scan | return value is a (consumed, frame) pair built in place", False, show(v, names), loc(s["line"]))
                 continue
@@ -774,9 +853,9 @@ def rules_scan(prog, res, m=None):
                     x = tgt[0]
                     steps = 0
                     clean = True
-                    while x != header and steps < 6:
+                    while x != header and steps < 8:
                         blk = f.blocks[x]
-                        if f.term(x)["k"] != "goto" or any(s["k"] == "assign" and s["place"]["local"] == 0 for s in blk["stmts"]):
+                        if f.term(x)["k"] not in ("goto", "assert") or any(s["k"] == "assign" and s["place"]["local"] == 0 for s in blk["stmts"]):
                             clean = False
                             break
                         x = f.term(x)["target"]
